@@ -26,6 +26,7 @@ type gProp struct {
 	Proposer  string
 	Expedited bool
 	Title     string
+	Failed    string   // failure reason recorded by the executor
 	Types     []string // type urls of its messages
 	Msgs      []sdk.Msg
 	Total     sdkmath.Int // FX
@@ -83,7 +84,7 @@ func readGovView(w *World, ctx sdk.Context) *govView {
 		return false, nil
 	})
 	_ = k.Proposals.Walk(ctx, nil, func(id uint64, p govv1.Proposal) (bool, error) {
-		gp := &gProp{ID: id, Status: p.Status, Proposer: p.Proposer, Expedited: p.Expedited, Title: p.Title,
+		gp := &gProp{ID: id, Status: p.Status, Proposer: p.Proposer, Expedited: p.Expedited, Title: p.Title, Failed: p.FailedReason,
 			Total: sdk.NewCoins(p.TotalDeposit...).AmountOf(fxtypes.DefaultDenom), VStart: p.VotingStartTime, VEnd: p.VotingEndTime,
 			Deposits: map[string]sdkmath.Int{}, Votes: map[string]govv1.WeightedVoteOptions{}}
 		if p.DepositEndTime != nil {
